@@ -2,6 +2,8 @@
 use super::*;
 include!("common.inc");
 
+pub(crate) fn peek(t: &DespawnAccessTracker) -> (bool, Entity, bool, usize) { (t.currently_reacting, t.reaction_source, t.reactor_handle.is_some(), t.prepared.len()) }
+
 type Elem = (SystemCommand, Entity, ReactorHandle);
 // handles are compared by the id they stand for (ReactorHandle has no PartialEq; Persistent handles carry no ref-count)
 fn same(a: &Elem, b: &Elem) -> bool { a.0 == b.0 && a.1 == b.1 && a.2.sys_command() == b.2.sys_command() }
